@@ -194,6 +194,7 @@ def explore(pid, ctx):
     scratch = os.path.join(lib.WORK, pid)
     t0 = time.time()
     cases, notes, errors = lib.run_harness("value", seed, count, tier, scratch)
+    notes.pop("_stderr", None)
     # corpus first
     corpus = load_corpus(pid, scratch)
     cases = corpus + cases
